@@ -30,3 +30,6 @@ Definition chunk_shape (b : list (bytes * N)) : list (N * N) :=
   rev (map (fun c => (len (fst c), snd c)) b).
 
 Definition alloc_all (recs : list bytes) : list (bytes * N) := fold_left alloc_write recs [].
+
+(* no chunk is longer than its capacity (the slices handed out never overlap or spill) *)
+Definition chunks_fit (b : list (bytes * N)) : Prop := Forall (fun c => len (fst c) <= snd c) b.
